@@ -1,6 +1,6 @@
 #!/bin/sh
 # sequential thorough sweep of all listed properties (run with: vp run -- sh tools/thorough_all.sh)
 cd "$(dirname "$0")/.." || exit 2
-for ID in C01 C02 C03 C04 C05 C06 C07 C08 C09 C10 C11 C12 C13 C14 C15 C16 C17 C18 C19 C20; do
-  echo "=== $ID"; VERIF_EVIDENCE_DIR=/tmp/evth timeout 2400 ./check $ID --tier thorough 2>&1 | grep -v "^   signature" | tail -4 | cut -c1-220
+for ID in ${@:-C01 C02 C03 C04 C05 C06 C07 C08 C09 C10 C11 C12 C13 C14 C15 C16 C17 C18 C19 C20}; do
+  echo "=== $ID"; VERIF_EVIDENCE_DIR=/tmp/evth timeout 3000 ./check $ID --tier thorough 2>&1 | grep -v "^   signature" | tail -4 | cut -c1-220
 done
